@@ -2,7 +2,7 @@
 #pragma once
 namespace vs
 {
-constexpr int N_TYPED_SITES = 57;
+constexpr int N_TYPED_SITES = 58;
 
 inline std::string typed_str(Rng& r, size_t maxlen, int flavour)
 {
@@ -807,6 +807,29 @@ void VM<FO>::do_log_typed(int tid, int opi, Op const& op)
     double a = dbl();
     VS_MSITE(true, fmtquill::format("dv [sid: {}, a: {}]", sid, a), QUILL_LOGV_DYNAMIC(lg, quill::LogLevel::Info, "dv", sid, a));
     sid.assign(sid.size(), '!');
+    break;
+  }
+  case 57:
+  {
+    // large fixed-width char arrays (wire-format fields): completely filled, i.e. unterminated, or terminated early
+    char a[24];
+    char b[64];
+    std::string sa = payload(r.next(), r.chance(2, 3) ? sizeof(a) : static_cast<size_t>(r.range(0, 23)));
+    std::string sb = payload(r.next(), r.chance(2, 3) ? sizeof(b) : static_cast<size_t>(r.range(0, 63)));
+    std::memset(a, 0, sizeof(a));
+    std::memcpy(a, sa.data(), sa.size());
+    std::memset(b, 0, sizeof(b));
+    std::memcpy(b, sb.data(), sb.size());
+    c11ok = true;
+    expected = typed_sanitize(fmtquill::format("#{}# {}|{}", id, sa, sb));
+    begin_invoke();
+    sim::AllocCounters const before = sim::alloc_counters();
+    QUILL_LOG_INFO(lg, "#{}# {}|{}", id, a, b);
+    sim::AllocCounters const after = sim::alloc_counters();
+    mallocs = after.mallocs - before.mallocs;
+    mmaps = after.mmaps - before.mmaps;
+    std::memset(a, '!', sizeof(a));
+    std::memset(b, '!', sizeof(b));
     break;
   }
   case 55:
